@@ -4,6 +4,7 @@ import (
 	"encoding/json"
 	"fmt"
 	"math"
+	"sync/atomic"
 
 	"github.com/peterstace/simplefeatures/geom"
 	"verif/engine"
@@ -247,6 +248,27 @@ func c09Main(r *engine.Run) {
 	}
 	r.Extra["type_pairs_covered"] = len(typePairs)
 	r.Sample("pair", pairCase{A: ops[n/3].WKT, B: ops[n-20].WKT})
+	// chained: results of the set operations against every operand of a reduced alphabet
+	{
+		parts := 13
+		if r.Thorough() {
+			parts = 29
+		}
+		chainA := chainAlphabet(ops, HolesFamily(universe.Identity), parts)
+		var kept atomic.Int64
+		if done, fed := chainResults(r, chainA, func(res Operand) {
+			for _, c := range chainA {
+				if !arrClearanceOK(oracle.NewPair(res.X, c.X).Arr, magnitude(res.X, c.X)) {
+					continue
+				}
+				kept.Add(1)
+				c09Pair(r, res, c, true)
+			}
+		}); done {
+			r.Bound(fmt.Sprintf("chained: %d results of set operations on pairs of a %d-operand alphabet against every operand of it (%d pairs kept by the clearance filter)", fed, len(chainA), kept.Load()))
+		}
+	}
+
 	hf := append(HolesFamily(universe.Identity), StarProbes(universe.Identity)...)
 	m := len(hf)
 	if r.Parallel(m*m, func(k int) {
